@@ -307,8 +307,10 @@ class Lib(object):
     def seq_of(self, ex, it, p, fctx, ln):
         if isinstance(it, Ref):
             o = p.obj(it)
+            if o.cls == "list" and "iter_hook" in o.f:
+                return o.f["iter_hook"](ex, p, it, ln)
             if o.cls == "list" and "len" in o.f:
-                return p, SeqView(o.f["len"], list_elem(o))
+                return p, SeqView(o.f["len"], list_elem(o), o.f.get("facts"))
             h = self.methods.get((o.cls, "__iter__"))
             if h:
                 return h(ex, p, it, ln)
@@ -450,6 +452,12 @@ class Lib(object):
 
         def elem(i, view=view):
             q = p.fork()
+            # an element only exists inside the sequence: its index is in range and the
+            # view's own facts about it hold
+            iz = to_z3(i)
+            q.assume(z3.And(iz >= 0, iz < to_z3(view.n)))
+            for f_ in view.facts(i):
+                q.assume(f_)
             q = ex.assign(g.target, view.elem(i), q, fctx, e.lineno)
             ((q, v),) = ex.ev(e.elt, q, fctx)
             return v
